@@ -31,8 +31,13 @@ def sh(cmd, cwd=None, timeout=None, env=None, stdin=None, stdout=subprocess.PIPE
     e.update({"CARGO_NET_OFFLINE": "true"})
     if env:
         e.update(env)
-    p = subprocess.run(cmd, cwd=cwd, stdin=stdin, stdout=stdout, stderr=subprocess.STDOUT, env=e,
-                       timeout=timeout)
+    try:
+        p = subprocess.run(cmd, cwd=cwd, stdin=stdin, stdout=stdout, stderr=subprocess.STDOUT, env=e,
+                           timeout=timeout)
+    except subprocess.TimeoutExpired as ex:
+        # the child has been killed; what it printed so far is kept
+        so_far = ex.stdout.decode(errors="replace") if isinstance(ex.stdout, bytes) else ""
+        return -9, so_far + f"\nTIMEOUT after {timeout} s"
     return p.returncode, (p.stdout.decode(errors="replace") if stdout == subprocess.PIPE else "")
 
 
@@ -217,7 +222,11 @@ def correspond(pid, spec, tier, seed, release=False, tag=""):
     t0 = time.time()
     env = {"NO_COLOR": "1", "RAYON_NUM_THREADS": os.environ.get("RAYON_NUM_THREADS", "")}
     env = {k: v for k, v in env.items() if v}
-    rc, out = sh([exe, spec["harness"], tier, str(seed), rundir], timeout=spec.get("timeout", 1200), env=env)
+    # the whole generator takes seconds to a few minutes on the unchanged tree: an implementation
+    # that does not come back within the limit (e.g. a loop over usize::MAX zero-sized elements)
+    # is reported like a crash, with the last announced operation as the replay
+    limit = spec.get("timeout", 600 if tier == "quick" else 3000)
+    rc, out = sh([exe, spec["harness"], tier, str(seed), rundir], timeout=limit, env=env)
     res["harness_s"] = round(time.time() - t0, 2)
     ops = rd(os.path.join(rundir, "ops.txt")).splitlines() if os.path.exists(os.path.join(rundir, "ops.txt")) else []
     if rc != 0 or "HARNESS-DONE" not in out:
@@ -393,7 +402,9 @@ def run_check(pid, tier, seed):
             known_hits.append(k)
         else:
             payload = {"property": pid, "kind": "implementation-crashed", "profile": prof, "tier": tier, "seed": seed,
-                       "what": "the harness process died while executing the last listed operation (abort on an unsafe-precondition check, double panic, or allocation failure)",
+                       "what": ("the implementation did not come back from the last listed operation within the time limit of the whole run (a loop over a huge extent?)"
+                                if cr["crashed"]["rc"] == -9 and "TIMEOUT after" in cr["crashed"]["tail"] else
+                                "the harness process died while executing the last listed operation (abort on an unsafe-precondition check, double panic, or allocation failure)"),
                        **cr["crashed"]}
             violations.append((write_replay(pid, "crash", payload), ""))
     # 2. broken obligations without a concrete failing input
